@@ -3,6 +3,11 @@
 #include <stdarg.h>
 #include <errno.h>
 
+#ifndef OS_MAXOBJ
+#define OS_MAXOBJ 256
+#endif
+#define OS_SHIFT 16
+#define OS_NGEN 8
 unsigned os_fail_at[OS_NKIND], os_calls[OS_NKIND];
 int os_failed_any, os_last_prot;
 unsigned os_mremap_moves, os_short_write;
@@ -15,10 +20,11 @@ int os_unmapped_ok;
 unsigned char os_written[64];
 unsigned os_written_n;
 int os_fopen_live, os_fclose_ok;
-
-#ifndef OS_MAXOBJ
-#define OS_MAXOBJ 256
+unsigned os_anon_len, os_gen;
+#ifdef VF_CBMC
+unsigned char os_arena[OS_MAXOBJ + OS_NGEN * OS_SHIFT];
 #endif
+
 
 void os_schedule(int in_base) {
   for (int k = 0; k < OS_NKIND; k++) {
@@ -53,14 +59,22 @@ void *vf_mmap(void *addr, size_t len, int prot, int flags, int fd, off_t off) {
   if (len == 0) return MAP_FAILED;          /* EINVAL on Linux */
   if (os_fails(OS_MMAP)) return MAP_FAILED;
   unsigned end = ((unsigned)len + OS_PAGE - 1) / OS_PAGE * OS_PAGE;
+  if ((flags & MAP_ANONYMOUS) && (prot & PROT_EXEC)) {
+    /* the code buffer lives in one arena object; a moving mremap returns an
+     * address OS_SHIFT bytes further on.  Contents are not simulated (mremap
+     * preserves them by contract); what the queries decide is that the
+     * library asks for the right sizes and uses the address it was given. */
+    __CPROVER_assert(len <= OS_MAXOBJ, "model bound: anonymous mapping fits the model object");
+    os_last_prot = prot; os_anon_len = (unsigned)len; os_gen = 0;
+    return os_arena;
+  }
   if (flags & MAP_ANONYMOUS) {
     __CPROVER_assert(len <= OS_MAXOBJ, "model bound: anonymous mapping fits the model object");
     unsigned char *p = malloc(OS_MAXOBJ);
     __CPROVER_assume(p != NULL);
     /* whole pages are mapped and read as zero; what lies beyond is not mapped */
     for (unsigned i = 0; i < OS_MAXOBJ; i++) p[i] = i < end ? 0 : 0x55;
-    if (prot & PROT_EXEC) os_last_prot = prot;
-    else { os_map_base = p; os_map_end = end; }
+    os_map_base = p; os_map_end = end;
     return p;
   }
   /* file mapping, either at an address the kernel picks or over an existing
@@ -89,17 +103,21 @@ void *vf_mremap(void *old, size_t oldlen, size_t newlen, int flags, ...) {
   (void)flags;
   if (os_fails(OS_MREMAP)) return MAP_FAILED;
   __CPROVER_assert(newlen <= OS_MAXOBJ, "model bound: grown mapping fits the model object");
-  if (!os_mremap_moves) return old;
-  unsigned char *np = malloc(OS_MAXOBJ), *op = old;
-  __CPROVER_assume(np != NULL);
-  for (unsigned i = 0; i < OS_MAXOBJ; i++)
-    if (i < oldlen) np[i] = op[i];
-  free(old);                                /* a stale pointer is a use-after-free for CBMC */
-  return np;
+  __CPROVER_assert((unsigned char *)old == os_code_base(), "VF mremap is given the current address of the mapping");
+  __CPROVER_assert(oldlen == os_anon_len, "VF mremap is given the current size of the mapping (contract of mremap: old_size)");
+  os_anon_len = (unsigned)newlen;
+  if (os_mremap_moves && os_gen < OS_NGEN - 1) os_gen++;
+  return os_code_base();
 }
+
+unsigned char *os_code_base(void) { return os_arena + os_gen * OS_SHIFT; }
 
 int vf_munmap(void *p, size_t len) {
   if (os_fails(OS_MUNMAP)) return -1;
+  if (__CPROVER_same_object(p, os_arena)) {
+    __CPROVER_assert((unsigned char *)p == os_code_base() && len == os_anon_len, "VF munmap is given the current address and size of the code mapping");
+    return 0;
+  }
   if (p == (void *)os_map_base) os_unmapped_ok = (len != 0);
   free(p);
   return 0;
